@@ -37,7 +37,51 @@ MACRO_FRAGS = [
     "%scan(a b,1)", "%substr(abc,1,2)", "a&b.c", "n&i.", "&i.x", "p&q", "pre&i._suf=1", "(a", "(a=", "a=&b", "b=2)", "x&y.z=1,", "%m(a&b.c)", "%m(a b=1)", "%m(a\n=1)",
     "%m(a/*c*/=1)", "%eval(a\nb +1)", "a\nb ", "x\n y  *", "first\nsecond %then", "%sysevalf(1.5x\n y  * 2)", "a%*c;b", "%*c;", "%m(%n)", "%m(%n=1)", "%m(a%n b)", "name ", " name", "=%m", "%mend m;", "%macro m;", "* x %m;", "*\n%x;", "\"&a\"", "\"%m\"", "\"a&b.c\"", "\"%let\"", "'&a'", "\"%str()\"", "\"%nrstr()\"d", "\"%str(/*c*/)\"", "\"%str()", "%str()", "%nrstr()", "%do %while(", "%do %until(", "%do;",
 ]
+
+
+def table_keywords():
+    """every spelling of the regenerated keyword maps (Gen/TokenType.lean: KEYWORDS, MKEYWORDS), so that every keyword
+    token type is reachable by the streams (measured: without them a third of the token types was never produced)"""
+    import os, re
+    path = os.path.join(os.path.dirname(os.path.abspath(__file__)), "..", "lean", "SasLexer", "Gen", "TokenType.lean")
+    kws, mkws, cur = [], [], None
+    try:
+        for l in open(path, encoding="utf-8"):
+            if l.startswith("def KEYWORDS"):
+                cur = kws
+            elif l.startswith("def MKEYWORDS"):
+                cur = mkws
+            elif l.startswith("def ") or l.startswith("end "):
+                cur = None
+            elif cur is not None:
+                cur += re.findall(r'\("([A-Z0-9_]+)",', l)
+    except OSError:
+        pass
+    return kws, mkws
+
+
+_KWS, _MKWS = table_keywords()
+
+
+def _casevar(w, i):
+    return [w.lower(), w.upper(), w.capitalize(), w.lower()[:1] + w.upper()[1:]][i % 4]
+
+
+# markers expanded by `soup` into a random table keyword (keeps the weight of the hand-picked fragments)
+KW_OPEN, KW_MACRO = "\ue000", "\ue001"
+if _KWS:
+    OPEN_FRAGS += [KW_OPEN] * 14
+if _MKWS:
+    MACRO_FRAGS += [KW_MACRO] * 14
 ALL_FRAGS = OPEN_FRAGS + MACRO_FRAGS * 2
+
+
+def expand_kw(rng, f):
+    if f == KW_OPEN:
+        return _casevar(rng.choice(_KWS), rng.randint(0, 3)) + rng.choice(["", " ", " ", ";"])
+    if f == KW_MACRO:
+        return "%" + _casevar(rng.choice(_MKWS), rng.randint(0, 3)) + rng.choice(["", " ", "(", "(", ";"])
+    return f
 
 
 def hexs(s):
@@ -46,7 +90,7 @@ def hexs(s):
 
 def soup(rng, frags, maxn):
     n = rng.randint(1, maxn)
-    return "".join(rng.choice(frags) for _ in range(n))
+    return "".join(expand_kw(rng, rng.choice(frags)) for _ in range(n))
 
 
 def gen_numeric(rng):
